@@ -29,6 +29,24 @@ def check_stored_length_reads(ctx, prog, R, rule="stored-length-read"):
                       "%s reads a payload whose byte count (%s) is not exactly the stored length field read before it: the key / value comes back "
                       "truncated or with bytes of the next field" % (fn.name, k7.expr_str(e)), where=where(fn, b))
     ctx.floor(rule, "payload reads", n, 5)
+    # ... and with a primitive that delivers exactly that many bytes: `Read::read` / `Write::write` may stop short (rabuf
+    # stops at the end of the current buffer chunk), so outside the two forwarding impls on VarFile nothing in the lib
+    # may call them
+    PARTIAL = ("std::io::Read::read", "std::io::Write::write", "std::io::Read::read_buf", "std::io::Read::read_vectored", "std::io::Write::write_vectored")
+    bad = []
+    n_fwd = 0
+    for fn in sorted(prog.fns.values(), key=lambda f: f.id):
+        if fn.crate != "abyssiniandb":
+            continue
+        for b, t in fn.calls():
+            if (t.get("callee") or "") in PARTIAL and not fn.is_cleanup(b):
+                if fn.impl_trait in ("std::io::Read", "std::io::Write") and fn.name == (t.get("callee") or "").rsplit("::", 1)[-1]:
+                    n_fwd += 1          # `impl Read for VarFile { fn read(..) { self.buf_file.read(..) } }`
+                else:
+                    bad.append((fn, b, t))
+    ctx.check(not bad, rule, "exact-length-primitives",
+              "%s transfers data with %s, which may stop short of the requested length (a record that straddles a buffer chunk comes back truncated)"
+              % (bad[0][0].name if bad else "-", (bad[0][2].get("callee") or "").rsplit("::", 2)[-2:] if bad else "-"), where=where(bad[0][0], bad[0][1]) if bad else None)
 
 
 def is_role(prog, R, fn, e, role):
